@@ -28,7 +28,7 @@ LEVEL_TEXT = (
 )
 TECHNIQUE = "Lean 4 proof (state-machine invariant over all operation histories, regenerated discipline) + differential histories"
 GEN = ["angular_cache"]
-LEAN_MODULES = ["GridVerif.Props.C19", "GridVerif.Props.C19.State", "GridVerif.Props.C19.BReject", "GridVerif.Props.C19.T1D"]
+LEAN_MODULES = ["GridVerif.Props.C19", "GridVerif.Props.C19.State", "GridVerif.Props.C19.BReject", "GridVerif.Props.C19.T1D", "GridVerif.Props.C19.Handout"]
 THEOREMS = [
     "GridVerif.C19.safe_init",
     "GridVerif.C19.step_safe",
@@ -75,6 +75,14 @@ THEOREMS = [
     "GridVerif.C19.t1d_rejected_leaves_no_trace",
     "GridVerif.C19.t1d_guard_after_state_fails_at",
     "GridVerif.C19.b_history_any_entry_point",
+    # round 6: no aliasing in what get_shell_grid hands out; a request resolves through the tables whatever is cached
+    "GridVerif.C19.shell_grid_arrays_fresh",
+    "GridVerif.C19.shell_grid_edit_leaves_parent",
+    "GridVerif.C19.shell_view_edit_changes_parent_at",
+    "GridVerif.C19.request_resolved_on_every_path",
+    "GridVerif.C19.size_request_independent_of_cache",
+    "GridVerif.C19.degree_request_independent_of_cache",
+    "GridVerif.C19.resolve_skipped_on_hit_fails_at",
 ]
 RULE = (
     "histories of 3..14 operations on one process state: AngularGrid(degree, method, cache on/off) over 4 methods x a "
